@@ -172,6 +172,9 @@ func worker(c *vf.Ctx, arg string) {
 			r.checkChunk(i)
 		}
 	}
+	if len(r.panics) > 0 {
+		c.Extra("planner-panics-seen-by-worker-"+parts[0], r.panics)
+	}
 }
 
 // genTextCase builds the text of case i of a part.
